@@ -131,7 +131,7 @@ pub fn drive(tier: &str) -> i32 {
         run.capped = true;
     }
     let mut ev = Evidence::new("model_checking");
-    ev.set("rule", "jump layouts: up to 3 labelled blocks in every order (quick: two orders for 3 blocks), each ending in fall-through / END / RETURN / GOTO x / GOSUB x / RETURN x for every x, entered by fall-through or by GOTO, at module level and inside a SUB, every block counting its executions (the program stops after 7). loop escapes: every nest of 1..3 loops over {FOR, FOR STEP -1, WHILE, DO..LOOP UNTIL} with pairwise distinct bounds, a GOTO from the innermost body to a label in the body of every shallower level and after the nest, a GOSUB to a routine after the nest. one fault: 8 failing statement kinds x 9 containers x 3 positions x 6 handler modes x handler action. handler histories: the full tree of sequences up to the depth over {ON ERROR GOTO H1, ON ERROR GOTO H2, ON ERROR GOTO 0, ON ERROR RESUME NEXT, failing statement, trace}. Every program is one path of the reference machine (explicit GOSUB stack, handler mode, pending error) replayed on the implementation; trace output, ERR values and the end state with its row are compared.");
+    ev.set("rule", "jump layouts: up to 3 labelled blocks in every order (quick: two orders for 3 blocks), each ending in fall-through / END / RETURN / GOTO x / GOSUB x / RETURN x for every x, entered by fall-through or by GOTO, at module level and inside a SUB, every block counting its executions (the program stops after 7). loop escapes: every nest of 1..3 loops over {FOR, FOR STEP -1, WHILE, DO..LOOP UNTIL} with pairwise distinct bounds, a GOTO from the innermost body to a label in the body of every shallower level and after the nest, a GOSUB to a routine after the nest. one fault: 8 failing statement kinds x 17 containers (main, IF / ELSE / ELSEIF blocks, single-line IF, first / middle / ELSE CASE blocks, FOR / FOR STEP / WHILE / DO bodies, an IF block that ends a FOR body, SUB and FUNCTION bodies, the end of the module with subprograms following) x 3 positions x 6 handler modes x handler action. handler histories: the full tree of sequences up to the depth over {ON ERROR GOTO H1, ON ERROR GOTO H2, ON ERROR GOTO 0, ON ERROR RESUME NEXT, failing statement, trace}. Every program is one path of the reference machine (explicit GOSUB stack, handler mode, pending error) replayed on the implementation; trace output, ERR values and the end state with its row are compared.");
     ev.set("exhaustive", !run.capped);
     ev.set("plan", json!(plan));
     ev.set("states", states);
